@@ -1,6 +1,7 @@
 import Flowjaxv.Proofs.Masks
 import Flowjaxv.Proofs.MasksGen
 import Flowjaxv.Proofs.BnafGen
+import Flowjaxv.Proofs.NetGen
 /-!
 # C09 — autoregressive, coupling and block structure holds for all weights
 
@@ -554,5 +555,63 @@ theorem gen_bnaf_masks_instance :
 
 end BnafGen
 /-! ## ===== END BnafGen ===== -/
+/-! ## generated Coupling / MaskedAutoregressive methods (`Gen/NetGen.lean`, regenerated from coupling.py /
+masked_autoregressive.py; see `Props/C01.lean`, section `GeneratedNet`): the dependency structure of the GENERATED
+`transform`s, for all weights. -/
+section GeneratedNetStructure
+open Nw GenNet
+
+/-- **`gen_coupling_structure`** — the generated `Coupling.transform`: the output has the input's length, its first block
+is the input's first block, and coordinate `i ≥ d` is `T ps x_i` with `ps` = row `i − d` of the reshaped conditioner
+output — a function of the first block and the condition only.  Every conditioner function, transformer family,
+`condition=None` or an array, every `x` of the declared length. -/
+theorem gen_coupling_structure (self : CouplingObj ℝ) (x : List ℝ) (c : Option (List ℝ)) (hx : x.length = self.dim)
+    (hd : self.untransformed_dim ≤ self.dim) :
+    (Coupling.transform self x c).length = x.length ∧
+    (Coupling.transform self x c).take self.untransformed_dim = x.take self.untransformed_dim ∧
+    ∀ i (_ : self.untransformed_dim ≤ i) (hi : i < x.length),
+      ∃ ps, (reshapeRows (self.dim - self.untransformed_dim)
+          (self.conditioner (x.take self.untransformed_dim ++ c.getD [])))[i - self.untransformed_dim]? = some ps ∧
+        (Coupling.transform self x c)[i]? = some ((self.transformer_constructor ps).fwd x[i] ()) := by
+  have e : Coupling.transform self x c = couplingTransform self.untransformed_dim self.conditioner
+      (fun ps t => (self.transformer_constructor ps).fwd t ()) x (c.getD []) := (NetGenPf.gen_coupling_eq_model self x c hx).1
+  rw [e]
+  have h := coupling_structure self.untransformed_dim self.conditioner
+    (fun ps t => (self.transformer_constructor ps).fwd t ()) x (c.getD []) (by omega)
+  rw [← hx]
+  exact h
+
+/-- **`gen_maf_autoregressive`** — the generated `MaskedAutoregressive` on the object of any well-shaped masked network
+(masks = the generated `mafMasks`, `gen_maf_masks_eq_model`), all raw weights / biases / activation, every transformer family
+and condition: the scalar transformer the generated `_flat_params_to_transformer` builds for coordinate `i` depends only on
+`x_j, j < i`, and output `i` of the generated `transform` only on `x_0 … x_i`. -/
+theorem gen_maf_autoregressive (N : MafNet ℝ) (hN : N.WellShaped) (tf : List ℝ → Bij ℝ Unit ℝ) (x x' : List ℝ)
+    (c : Option (List ℝ)) (hx : x.length = N.dim) (hx' : x'.length = N.dim) (i : Nat) (hi : i < N.dim) :
+    ((∀ j (hj : j < x.length) (hj' : j < x'.length), j < i → x[j] = x'[j]) →
+        (Maf.flatParamsToTransformer (MafObj.ofNet N tf)
+            ((MafObj.ofNet N tf).masked_autoregressive_mlp (x ++ c.getD []))).bs[i]?
+          = (Maf.flatParamsToTransformer (MafObj.ofNet N tf)
+            ((MafObj.ofNet N tf).masked_autoregressive_mlp (x' ++ c.getD []))).bs[i]?) ∧
+    ((∀ j (hj : j < x.length) (hj' : j < x'.length), j ≤ i → x[j] = x'[j]) →
+        (Maf.transform (MafObj.ofNet N tf) x c)[i]? = (Maf.transform (MafObj.ofNet N tf) x' c)[i]?) := by
+  have h := maf_autoregressive N hN (fun ps t => (tf ps).fwd t ()) x x' (c.getD []) hx hx' i hi
+  refine ⟨fun hag => ?_, fun hag => ?_⟩
+  · rw [NetGenPf.maf_flat_eq, NetGenPf.maf_flat_eq]
+    simp only [Nw.Vmap, List.getElem?_map]
+    exact congrArg (Option.map tf) (h.1 hag)
+  · rw [NetGenPf.gen_maf_transform_eq, NetGenPf.gen_maf_transform_eq]
+    exact h.2 hag
+
+/-- non-vacuity by kernel evaluation of the generated definitions at `ℤ`: changing `x₁` does not change output 0 of the
+generated MAF transform and changes output 1; changing a transformed coordinate of the generated coupling layer leaves the
+other outputs unchanged -/
+theorem gen_net_structure_instance :
+    Maf.transform (MafObj.ofNet NetGenPf.mafExampleZ NetGenPf.shiftFamilyZ) [3, 4] none = [3, 10] ∧
+    Maf.transform (MafObj.ofNet NetGenPf.mafExampleZ NetGenPf.shiftFamilyZ) [3, 9] none = [3, 15] ∧
+    Coupling.transform NetGenPf.couplingExampleZ [2, 5, 7] (some [3]) = [2, 9, 12] ∧
+    Coupling.transform NetGenPf.couplingExampleZ [2, 6, 7] (some [3]) = [2, 10, 12] := by
+  decide
+
+end GeneratedNetStructure
 
 end C09
